@@ -30,8 +30,10 @@ pub fn agree(order: &[u8], def_files: &[u8]) {
     let i1: bool = any(); let k1: u8 = any();
     assume(k1 < 3);
     w.imp_c1 = Imp { on: i1 && m_has && w.c1_present, kind: k1 };
+    let vp: bool = any();
+    w.v_is_plugin = vp && def_files.contains(&V);
     distinct(&w);
-    note!("order={:?} defs={:?} imp_c1={}({})", order, w.defs.iter().map(|d| (d.file, d.line)).collect::<Vec<_>>(), w.imp_c1.on, k1);
+    note!("order={:?} defs={:?} imp_c1={}({}) v_is_plugin={}", order, w.defs.iter().map(|d| (d.file, d.line)).collect::<Vec<_>>(), w.imp_c1.on, k1, w.v_is_plugin);
     let db = build(&w, DEFS_ONLY);
     let up = Path::new(path(U));
     let nav = db.find_closest_definition(up, "f").map(|d| d.line);
@@ -71,7 +73,7 @@ macro_rules! agree_arm {
         pub fn $id() { agree(&$order, &$defs) }
     };
 }
-/// @harness id=c05_root_and_near props=C05 unwind=17 mem=10 cap=1500
+/// @harness id=c05_root_and_near props=C05,C18 unwind=17 mem=10 cap=1500
 /// C0 and C1 define f (root registered first), requested from U.
 agree_arm!(c05_root_and_near, [C0, C1, U], [C0, C1]);
 /// @harness id=c05_same_file_twice props=C05 unwind=17 mem=10 cap=1500
@@ -80,10 +82,13 @@ agree_arm!(c05_same_file_twice, [U], [U, U]);
 /// @harness id=c05_import_vs_sibling props=C05 unwind=17 mem=10 cap=1500
 /// S and M define f, C1 (symbolically) imports M.
 agree_arm!(c05_import_vs_sibling, [S, M, C1, U], [S, M]);
-/// @harness id=c05_plugin_third props=C05 unwind=21 mem=10 cap=1500
-/// V registered before P.
+/// @harness id=c05_near_import_vs_root_def props=C05,C18 unwind=17 mem=10 cap=1500
+/// M (registered first) and the root conftest C0 define f; the nearer conftest C1 (symbolically) imports M.
+agree_arm!(c05_near_import_vs_root_def, [M, C0, C1, U], [M, C0]);
+/// @harness id=c05_plugin_third props=C05,C18 unwind=21 mem=10 cap=1500
+/// V registered before P; V symbolically also an entry-point plugin.
 agree_arm!(c05_plugin_third, [V, P, U], [V, P]);
-/// @harness id=c05_sibling_only props=C05 unwind=17 mem=10 cap=1500
+/// @harness id=c05_sibling_only props=C05,C18 unwind=17 mem=10 cap=1500
 /// only the sibling conftest defines f: no feature may offer it.
 agree_arm!(c05_sibling_only, [S, U], [S]);
 
@@ -125,6 +130,7 @@ macro_rules! pos_arm {
         #[cfg_attr(kani, kani::stub(crate::fixtures::FixtureDatabase::is_fixture_imported_in_file, crate::world::stub_is_imported))]
         #[cfg_attr(kani, kani::stub(core::unicode::unicode_data::alphabetic::lookup, crate::stubs::uni_alphabetic))]
         #[cfg_attr(kani, kani::stub(core::unicode::unicode_data::n::lookup, crate::stubs::uni_numeric))]
+        #[cfg_attr(kani, kani::stub(core::slice::memchr::memchr, crate::stubs::memchr_bytewise))]
         pub fn $id() { $body }
     };
 }
@@ -144,6 +150,27 @@ pos_arm!(c04_inv_override, {
     let mut w = World::new(&[C0, C1, U]);
     w.def(C0, "f", 4); let i = w.def(C1, "f", 6); w.defs[i].deps = vec!["f"];
     w.test(U, 8, &["f"]);
+    w.with_text = true;
+    inverse(w)
+});
+
+/// @harness id=c04_inv_sibling_first props=C04,C08 unwind=24 mem=12 cap=1800 gates=worlds
+/// C1 defines f; the sibling module M (same directory) uses the inherited f and is registered BEFORE U, which
+/// overrides f locally and uses its own.
+pos_arm!(c04_inv_sibling_first, {
+    let mut w = World::new(&[C1, M, U]);
+    w.def(C1, "f", 4); w.def(U, "f", 6);
+    w.test(M, 8, &["f"]); w.test(U, 10, &["f"]);
+    w.with_text = true;
+    inverse(w)
+});
+/// @harness id=c04_inv_usage_above_override props=C04,C02 unwind=24 mem=12 cap=1800 gates=worlds
+/// U: a test using f sits ABOVE the override `def f(f)`; parent f in C0. The override's own parameter belongs to
+/// the parent, the test's parameter to the override.
+pos_arm!(c04_inv_usage_above_override, {
+    let mut w = World::new(&[C0, U]);
+    w.def(C0, "f", 4); let i = w.def(U, "f", 6); w.defs[i].deps = vec!["f"];
+    w.test(U, 3, &["f"]); w.tests[0].before_defs = true;
     w.with_text = true;
     inverse(w)
 });
@@ -173,7 +200,7 @@ pub fn unused(w: World) {
         std::mem::forget(refs); std::mem::forget(d);
     }
     for i in 1..un.len() {
-        check!("c20.unused.sorted", (un[i - 1].0.as_os_str(), un[i - 1].1.as_str()) <= (un[i].0.as_os_str(), un[i].1.as_str()));
+        check!("c20.unused.sorted", (&un[i - 1].0, &un[i - 1].1) <= (&un[i].0, &un[i].1));
     }
     reach!("c20.unused.end");
     std::mem::forget(un); std::mem::forget(db); std::mem::forget(w);
@@ -211,6 +238,22 @@ cli_arm!(c20_unused_same_file_twice, {
     let mut w = World::new(&[U]);
     w.def(U, "f", 4); w.def(U, "f", 6);
     w.test(U, 8, &["f"]);
+    unused(w)
+});
+/// @harness id=c20_unused_usage_above_override props=C20,C04 unwind=17 mem=14 cap=2400
+/// U: test(f) above the override `def f(f)`; parent f in C0: both are used exactly once, none unused.
+cli_arm!(c20_unused_usage_above_override, {
+    let mut w = World::new(&[C0, U]);
+    w.def(C0, "f", 4); let i = w.def(U, "f", 6); w.defs[i].deps = vec!["f"];
+    w.test(U, 3, &["f"]); w.tests[0].before_defs = true;
+    unused(w)
+});
+/// @harness id=c20_unused_same_name_two_files props=C20 unwind=17 mem=14 cap=2400
+/// the same name g unused in two different conftests (C1 and S), f used: both g entries must be listed.
+cli_arm!(c20_unused_same_name_two_files, {
+    let mut w = World::new(&[C1, S, U]);
+    w.def(C1, "f", 4); w.def(C1, "g", 6); w.def(S, "g", 8);
+    w.test(U, 10, &["f"]);
     unused(w)
 });
 /// @harness id=c20_unused_third_party props=C20 unwind=21 mem=14 cap=2400
